@@ -965,6 +965,8 @@ class Interp:
                     return target(*args, **kwargs)
                 except (ValueError, TypeError, OverflowError) as e:
                     raise Raised(type(e).__name__, "", n)
+            if target is not None and callable(target) and any(target is v_ for v_ in self.opaque.values()):
+                return self._opaque_call(target, args, kwargs, n)   # an external function held in a local (`run = subprocess.run`)
             if target is not None and callable(target) and self._pure(target):
                 return self._stdlib(target, args, kwargs, n)   # a table entry such as ops[ast.Lt] = operator.lt
             imp = getattr(self.mod, "imports", {}).get(name)
@@ -1040,6 +1042,8 @@ class Interp:
                 return target(*args, **(kwargs or {}))
             except (ValueError, TypeError, OverflowError) as e:
                 raise Raised(type(e).__name__, "", n)
+        if callable(target) and any(target is v_ for v_ in self.opaque.values()):
+            return self._opaque_call(target, list(args), dict(kwargs or {}), n)
         if callable(target) and self._pure(target):
             return self._stdlib(target, list(args), dict(kwargs or {}), n)
         raise Unsupported("call form")
